@@ -47,6 +47,13 @@ def range_cases():
     add('named-closed', 'constraint c = in %s..%s;\nlet x :: c = %s;\n' % (P(1), P(2), P(3)), 'closed', 3)
     add('named-alt', 'constraint c = %s | %s | in %s..;\nlet x :: c = %s;\n' % (P(1), P(2), P(4), P(3)), 'alt2|lo4', 4)
     add('named-used-twice', 'constraint c = in %s..%s;\nlet x :: c = %s;\nlet y :: c = %s;\n' % (P(1), P(2), P(3), P(4)), 'closed&closed4', 4)
+    # alternations whose arms have different types: an arm of another type than the value must simply not match
+    add('mixed-str-then-range', 'let x :: "auto" | in %s..%s = %s;\n' % (P(1), P(2), P(3)), 'closed', 3)
+    add('mixed-range-then-str', 'let x :: in %s..%s | "auto" = %s;\n' % (P(1), P(2), P(3)), 'closed', 3)
+    add('mixed-str-int-bool', 'let x :: "x" | %s | true = %s;\n' % (P(1), P(3)), 'eq1', 3)
+    add('mixed-bool-float-int', 'let x :: false | 1.5 | %s | %s = %s;\n' % (P(1), P(2), P(3)), 'alt2', 3)
+    add('mixed-named', 'constraint c = "auto" | in %s..%s;\nlet x :: c = %s;\n' % (P(1), P(2), P(3)), 'closed', 3)
+    add('mixed-str-then-range-computed', 'let x :: "auto" | in %s..%s = %s + 0;\n' % (P(1), P(2), P(3)), 'closed', 3)
     add('computed-value', 'let v = %s + 1;\nlet x :: in %s..%s = v;\n' % (P(3), P(1), P(2)), 'closed+1', 3)
     return cs
 
@@ -63,6 +70,8 @@ def predicate(name, a):
         return z3.BoolVal(True)       # a single literal is a zero-value exemplar: any integer conforms
     if name == 'alt2':
         return z3.Or(a[3] == a[1], a[3] == a[2])
+    if name == 'eq1':
+        return a[3] == a[1]
     if name == 'alt3':
         return z3.Or(a[3] == a[1], a[3] == a[2], a[3] == a[4])
     if name == 'alt4':
@@ -88,6 +97,9 @@ FLOAT_CASES = [('let x :: in 0.5..1.5 = %s;\n', [('0.5', True), ('1.5', True), (
                ('let x :: 1.5 | 2.5 = %s;\n', [('1.5', True), ('2.5', True), ('2.0', False)]),
                ('let x :: "a" | "b" = %s;\n', [('"a"', True), ('"b"', True), ('"c"', False), ('"ab"', False)]),
                ('let x :: true = %s;\n', [('true', True), ('false', True)]),
+               ('let x :: 0 | "none" = %s;\n', [('"none"', True), ('0', True), ('"other"', False), ('1', False)]),
+               ('let x :: false | in 0.0..1.0 = %s;\n', [('0.5', True), ('false', True), ('1.5', False), ('true', False)]),
+               ('let x :: "a" | 1.5 | in 3..4 = %s;\n', [('1.5', True), ('3', True), ('"a"', True), ('2.5', False), ('5', False)]),
                ('let x :: in 1..5 = %s;\n', [('"s"', False), ('1.5', False), ('true', False)]),
                ('let x :: in 0.5..1.5 = %s;\n', [('1', False), ('"s"', False)])]
 
